@@ -176,7 +176,7 @@ PROPS = {
     ),
     "C09": dict(
         modules=["Whawty.Props.C09"],
-        suites=[("hdrv", "c09"), ("hdrv", "c09f")],
+        suites=[("hdrv", "c09"), ("hdrv", "c09f"), ("hdrv", "c09r")],
         level_text="durableAtAck_sound: the checker implies that from the acknowledgement on, under every subset of "
                    "pending directory operations, the name shows exactly the acknowledged content; model theorems for "
                    "add / update / set-admin / remove of the repaired code and the negation for the pinned code (D4). "
@@ -184,7 +184,7 @@ PROPS = {
         rule="init / add / update / set-admin / remove under strace on populated stores; exhaustive over all states from "
              "the return on x all subsets of pending directory operations; fault sweep: every injectable call of add / "
              "update / set-admin / init failed in turn (ENOSPC/EIO/EACCES/EMFILE) — whenever the operation still reports "
-             "success, durableAtAck is evaluated on the faulted run's trace.",
+             "success, durableAtAck is evaluated on the faulted run's trace. Round 6: suite c09r — one Dir used for a warm-up change of every kind, the base directory replaced (or not) behind its back, one more operation under strace -y: the directory fsync must reach the directory that holds the entry.",
         trusted=["the standard abstract persistence model", "strace output and the Go trace parser", T_GO],
     ),
     "C14": dict(
